@@ -46,7 +46,9 @@ DEADLINE = 15.0
 _FX: Dict[str, Any] = {}
 LONG_NAME = 'l' + 'o' * 40 + 'ng.' + 'sub' * 8 + '.good.test'      # 78 octets: longer than an X.509 commonName may be (64), a valid DNS name
 FAIL_NAME = 'genfail.good.test'      # certificate generation for this host fails (a directory sits where its key file would go)
-GOOD_NAMES = ['good.test', 'a.good.test', 'localhost', 'optout.good.test', LONG_NAME, FAIL_NAME]
+# other spellings of one host (fully qualified with a trailing dot, upper case): each CONNECT spelling must be presented a
+# certificate naming THAT spelling, whatever was issued for the others before
+GOOD_NAMES = ['good.test', 'a.good.test', 'localhost', 'optout.good.test', LONG_NAME, FAIL_NAME, 'localhost.', 'LOCALHOST']
 
 
 def sh(*cmd: str, **kw: Any) -> None:
@@ -130,7 +132,7 @@ def fixture() -> Dict[str, Any]:
         real = socket.getaddrinfo
 
         def gai(host: Any, port: Any, *a: Any, **k: Any) -> Any:
-            if isinstance(host, str) and host.endswith('.test'):
+            if isinstance(host, str) and (host.endswith('.test') or host in ('localhost.', 'LOCALHOST')):      # (the origins listen on 127.0.0.1)
                 host = '127.0.0.1'
             return real(host, port, *a, **k)
         socket._vf_gai = real     # type: ignore[attr-defined]
@@ -572,7 +574,7 @@ def cleanup() -> None:
 @st.composite
 def cases(draw: Any) -> Dict[str, Any]:
     origin = draw(st.sampled_from(['good', 'good', 'good', 'selfsigned', 'wrongname', 'expired', 'osca', 'oddsubject']))
-    host = draw(st.sampled_from(['good.test', 'a.good.test', 'localhost', 'optout.good.test', '127.0.0.1', '[::1]', LONG_NAME, FAIL_NAME]))
+    host = draw(st.sampled_from(['good.test', 'a.good.test', 'localhost', 'optout.good.test', '127.0.0.1', '[::1]', LONG_NAME, FAIL_NAME, 'localhost.', 'LOCALHOST', 'localhost']))
     req = draw(G.request_spec(form='origin', host=host.encode(), framings=('none', 'cl', 'chunked'), max_body=300, max_headers=5,
                               versions=(b'HTTP/1.1',), plain_chunked=True))
     raw_len = len(G.render(req))
@@ -599,7 +601,7 @@ def run_shard(spec: Dict[str, Any], seed: int, acc: Any) -> None:
                 acc.label('inconclusive:deadline')
             if info.get('dontcare'):
                 acc.dontcare += 1
-            hostkind = 'ipv4' if c['host'][0].isdigit() else 'ipv6' if c['host'].startswith('[') else ('optout' if c['host'].startswith('optout') else 'name')
+            hostkind = 'ipv4' if c['host'][0].isdigit() else 'ipv6' if c['host'].startswith('[') else ('optout' if c['host'].startswith('optout') else 'name-other-spelling' if c['host'] in ('localhost.', 'LOCALHOST') else 'name')
             acc.case(c, info['nt'], labels=(('records-split-across-segments',) if c.get('split_records') else ()) + (('cold-certificate-cache',) if c.get('cold') else ()) + ('origin:' + c['origin'], 'host:' + hostkind, 'insecure' if c['insecure'] else 'secure',
                                            'stage:%s' % info['stage']))
             return vs
